@@ -190,6 +190,86 @@ def _fold_value_returns(body, ret):
     return out
 
 
+def _fold_returns_with_flag(body, ret, done):
+    """Last resort for returns nested in ``with`` / ``if`` blocks (not in
+    loops or try): ``return V`` becomes ``ret = V; done = True`` and
+    everything that could run after it is put under ``if not done:``.  The
+    ``with`` block still ends (its __exit__ runs) before anything behind it
+    is skipped, as with the real return.  None when a return sits in a loop,
+    a try or a nested definition."""
+    def has_ret(nodes):
+        return any(isinstance(x, ast.Return) for n_ in nodes
+                   for x in ast.walk(n_))
+
+    def not_done():
+        return ast.UnaryOp(op=ast.Not(),
+                           operand=ast.Name(id=done, ctx=ast.Load()))
+
+    def fold(stmts):
+        out = []
+        for i, st in enumerate(stmts):
+            if isinstance(st, ast.Return):
+                out.append(ast.Assign(
+                    targets=[ast.Name(id=ret, ctx=ast.Store())],
+                    value=st.value if st.value is not None
+                    else ast.Constant(None)))
+                out.append(ast.Assign(
+                    targets=[ast.Name(id=done, ctx=ast.Store())],
+                    value=ast.Constant(True)))
+                return out          # the rest of this block is dead
+            if not has_ret([st]):
+                out.append(st)
+                continue
+            if isinstance(st, (ast.With, ast.AsyncWith)):
+                inner = fold(st.body)
+                if inner is None:
+                    return None
+                new = type(st)(items=st.items, body=inner,
+                               type_comment=None)
+            elif isinstance(st, ast.If) and not st.orelse and len(
+                    st.body) == 1 and isinstance(
+                        st.body[0], ast.Return) and (
+                    st.body[0].value is None or (isinstance(
+                        st.body[0].value, ast.Constant)
+                        and st.body[0].value.value is None)):
+                # if C: return   ->   done = C   (done is false here, and
+                # only its truth value is ever read)
+                new = ast.Assign(
+                    targets=[ast.Name(id=done, ctx=ast.Store())],
+                    value=st.test)
+            elif isinstance(st, ast.If):
+                a = fold(st.body)
+                b = fold(st.orelse) if st.orelse else []
+                if a is None or b is None:
+                    return None
+                new = ast.If(test=st.test, body=a, orelse=b)
+            else:
+                return None         # loop / try / def
+            ast.copy_location(new, st)
+            out.append(new)
+            rest = fold(stmts[i + 1:])
+            if rest is None:
+                return None
+            if rest:
+                g = ast.If(test=not_done(), body=rest, orelse=[])
+                ast.copy_location(g, st)
+                out.append(g)
+            return out
+        return out
+
+    res = fold(list(body))
+    if res is None:
+        return None
+    init = [ast.Assign(targets=[ast.Name(id=done, ctx=ast.Store())],
+                       value=ast.Constant(False)),
+            ast.Assign(targets=[ast.Name(id=ret, ctx=ast.Store())],
+                       value=ast.Constant(None))]
+    res = init + res
+    for x in res:
+        ast.fix_missing_locations(x)
+    return res
+
+
 class Helper:
     def __init__(self, q, node, owner):
         self.q = q
@@ -282,6 +362,13 @@ class Helper:
             self.stmts = (folded, ast.Name(id=f"__ret_{n.name}",
                                            ctx=ast.Load()))
             return True
+        if self.expr is None:
+            folded = _fold_returns_with_flag(
+                body, f"__ret_{n.name}", f"__done_{n.name}")
+            if folded is not None:
+                self.stmts = (folded, ast.Name(id=f"__ret_{n.name}",
+                                               ctx=ast.Load()))
+                return True
         return self.expr is not None
 
     def _classify_generator(self):
